@@ -111,8 +111,23 @@ def make_job(src_of, kinds: set, name: str, form: str, pol: str, tt: bool, tm: b
             'reference': True, 'timeout': 40, 'name': name, 'exact': exact}
 
 
+def load_corpus() -> list[dict]:
+    """corpus/C05/*.json: run first on every run (known findings must reproduce, regression guards must pass)"""
+    out = []
+    d = C.CORPUS / 'C05'
+    if d.exists():
+        for p in sorted(d.glob('*.json')):
+            j = json.loads(p.read_text())
+            out.append((p.stem, j['job'], j.get('expect')))
+    return out
+
+
 def gen_jobs(rng, tier: str) -> list[dict]:
     jobs = []
+    for name, cj, expect in load_corpus():
+        j = make_job(lambda p, r, s=cj['src']: s, set(), 'corpus:' + name, cj['form'], cj['pol'], cj['trace_threads'], cj['trace_modules'], rng)
+        j['expect'] = expect
+        jobs.append(j)
     # hand-written programs: all policies, module tracing off; step/next/continue also with it on
     for name, src in progen.FIXED:
         for pol, _ in POLICIES:
@@ -411,10 +426,10 @@ def build_cases(job: dict, res: dict, ref: dict, per: dict, traces: dict, match:
 
 def run(ctx, jobs: list, corr: Corr, seen: set, model: bool = True) -> None:
     from .. import child
-    results = child.run_jobs([{k: v for k, v in j.items() if k not in ('block', 'name', 'exact', 'pol')} for j in jobs], par=14, chunk=8)
+    results = child.run_jobs([{k: v for k, v in j.items() if k not in ('block', 'name', 'exact', 'pol', 'expect')} for j in jobs], par=14, chunk=8)
     redo = [i for i, r in enumerate(results) if r.get('error') or not r.get('reference')]
     if redo:
-        again = child.run_jobs([dict({k: v for k, v in jobs[i].items() if k not in ('block', 'name', 'exact', 'pol')}, id=f'r{i}') for i in redo], par=6, chunk=2)
+        again = child.run_jobs([dict({k: v for k, v in jobs[i].items() if k not in ('block', 'name', 'exact', 'pol', 'expect')}, id=f'r{i}') for i in redo], par=6, chunk=2)
         for i, r in zip(redo, again):
             results[i] = r
     hist = corr.extra.setdefault('shapes', {'jobs': 0, 'by_policy': {}, 'by_form': {}, 'trace_modules_on': 0, 'trace_threads_off': 0,
@@ -462,7 +477,11 @@ def run(ctx, jobs: list, corr: Corr, seen: set, model: bool = True) -> None:
             if sum(len(d['prompts']) for d in traces.values()) >= 2:
                 corr.distinct_nontrivial += 1
         payload = {'job': {k: job[k] for k in ('src', 'form', 'trace_threads', 'trace_modules', 'policy', 'pol', 'name')}}
-        for sig, what in oracle(job, res, ref, per, traces, match, unmatched):
+        hits = oracle(job, res, ref, per, traces, match, unmatched)
+        if job.get('expect') and not any(sig == job['expect'] for sig, _ in hits):
+            ctx.notes.append(f'corpus entry {job["name"]} no longer reproduces the known finding {job["expect"]}')
+            ctx.log(f'NOTE: {job["name"]} does not reproduce {job["expect"]} any more')
+        for sig, what in hits:
             corr.violations.append(Violation(sig, f'[{job["name"]}, {job["form"]}, policy {job["pol"]}, trace_threads={job["trace_threads"]}, '
                                                   f'trace_modules={job["trace_modules"]}] {what}',
                                              dict(payload, observed_prompts={t: [[p['event'], p['line'], p['func']] for p in d['prompts']][:60]
